@@ -27,8 +27,8 @@ type Outcome struct {
 // Stage is one set of authentication callbacks (stage 0 = ServerConfig, stage
 // k+1 = what a partial success at stage k names).
 type Stage struct {
-	Password *Outcome            `json:"password,omitempty"` // nil = callback not configured
-	Kbd      *Outcome            `json:"kbd,omitempty"`
+	Password *Outcome `json:"password,omitempty"` // nil = callback not configured
+	Kbd      *Outcome `json:"kbd,omitempty"`
 	// PKOn: a PublicKeyCallback is configured (kept explicit: an empty map
 	// does not survive JSON serialisation of the scenario)
 	PKOn bool                `json:"pk_on,omitempty"`
@@ -37,7 +37,7 @@ type Stage struct {
 
 // Req is one client request.
 type Req struct {
-	Method  string `json:"method"` // none | password | kbd | pk | unknown
+	Method  string `json:"method"`            // none | password | kbd | pk | unknown
 	Bob     bool   `json:"bob,omitempty"`     // use the other user name
 	Variant string `json:"variant,omitempty"` // password/kbd: right|wrong|short ; pk: query|valid|wrong-session|wrong-user|wrong-service|other-key|sig-format|trailing|bad-algo-for-key
 	Key     string `json:"key,omitempty"`
@@ -48,13 +48,13 @@ type Req struct {
 type Scenario struct {
 	Stages       []Stage  `json:"stages"`
 	NoClientAuth bool     `json:"no_client_auth"`
-	NoneCB       *Outcome `json:"none_cb,omitempty"` // NoClientAuthCallback outcome (nil = no callback)
+	NoneCB       *Outcome `json:"none_cb,omitempty"`  // NoClientAuthCallback outcome (nil = no callback)
 	Verified     string   `json:"verified,omitempty"` // "" | accept | reject | accept-sa | accept-nil
 	VerifiedSA   string   `json:"verified_sa,omitempty"`
 	MaxAuthTries int      `json:"max_auth_tries"`
 	PKAlgos      []string `json:"pk_algos"`
 	Reqs         []Req    `json:"reqs"`
-	Remote       string   `json:"remote"` // "ip:port" or "nontcp"
+	Remote       string   `json:"remote"`      // "ip:port" or "nontcp"
 	CloseAfter   int      `json:"close_after"` // the client disconnects after this many requests (-1 = never)
 	FragDen      int      `json:"frag_den"`
 	Switch       int      `json:"switch_den"`
@@ -688,13 +688,13 @@ func saWellFormed(list string) bool {
 }
 
 type verdict struct {
-	may    bool // the request may be accepted (authentication may complete with it)
-	must   bool // a conforming server must accept it (unambiguous, valid, no limit reached)
-	kind   string
-	saList string
-	hasSA  bool
+	may        bool // the request may be accepted (authentication may complete with it)
+	must       bool // a conforming server must accept it (unambiguous, valid, no limit reached)
+	kind       string
+	saList     string
+	hasSA      bool
 	userChange bool // a different user name after a partial success: must not be honoured in any way
-	fails  bool // counts as an authentication failure if not accepted
+	fails      bool // counts as an authentication failure if not accepted
 }
 
 var lastRun *run
